@@ -50,13 +50,19 @@ class set_operators_build_compounds:
     }
 
 
-@contract(COMPOUND, props=['C08', 'C17'])
+@contract(COMPOUND, props=['C08', 'C17', 'C16'])
 class compound_constructor:
     cases = {'ok': {'what': 'ok'}, 'operand_not_region': {'what': 'operand_not_region'}, 'operator_not_callable': {'what': 'operator_not_callable'},
-             'sky_operand': {'what': 'sky_operand'}}
+             'sky_operand': {'what': 'sky_operand'}, 'empty_meta': {'what': 'empty_meta'}, 'default_meta': {'what': 'default_meta'}}
 
     def setup(B, what='ok'):
-        a, b = circle(B, 'a'), circle(B, 'b')
+        a, b = circle(B, 'a', 'bool'), circle(B, 'b')
+        if what in ('empty_meta', 'default_meta'):
+            from contracts.common import META, VISUAL
+            a.visual['color'] = 'red'
+            # an explicitly supplied empty meta / visual is a value like any other; only None means "take region1's"
+            return dict(region1=a, region2=b, operator=operator_of('or_'), meta=B.meta(META, 'm') if what == 'empty_meta' else None,
+                        visual=B.meta(VISUAL, 'v') if what == 'empty_meta' else None, what=what)
         op = operator_of('and_')
         if what == 'operand_not_region':
             b = 3
@@ -66,9 +72,10 @@ class compound_constructor:
             b = sky_region(B, 'circle', 'b', simple=True)
         return dict(region1=a, region2=b, operator=op, meta=rich_meta(B, 'm'), visual=rich_visual(B, 'v'), what=what)
     raises = {'ValueError': lambda what: what in ('operand_not_region', 'sky_operand'), 'TypeError': lambda what: what == 'operator_not_callable'}
-    post = {'stores': lambda region1, region2, operator, meta, visual, result:
+    post = {'stores': lambda region1, region2, operator, meta, visual, what, result:
             result.region1 is region1 and result.region2 is region2 and result.operator is operator
-            and dict(result.meta) == dict(meta) and dict(result.visual) == dict(visual)}
+            and dict(result.meta) == dict(meta if what != 'default_meta' else region1.meta)
+            and dict(result.visual) == dict(visual if what != 'default_meta' else region1.visual)}
 
 
 @contract(COMPOUND + '.rotate', props=['C08', 'C15', 'C13'])
